@@ -5,6 +5,8 @@ use vstd::prelude::*;
 verus! {
 global size_of usize == 8;
 } // verus!
+pub mod nl;
+pub use nl::*;
 pub mod bits;
 pub use bits::*;
 pub mod limbs;
